@@ -368,7 +368,7 @@ func runWorker(bin string, spec workerSpec, a *agg, deadline time.Time, onN func
 		return -1, false, "", perr
 	}
 	cmd.ExtraFiles = []*os.File{pw}
-	rb := &ringBuf{max: 64 << 10}
+	rb := &ringBuf{max: 512 << 10}
 	cmd.Stderr = rb
 	cmd.Stdout = rb
 	if err := cmd.Start(); err != nil {
@@ -387,7 +387,12 @@ func runWorker(bin string, spec workerSpec, a *agg, deadline time.Time, onN func
 	if !deadline.IsZero() {
 		timer = time.AfterFunc(time.Until(deadline), func() { killed = true; cmd.Process.Kill() })
 	}
-	wd := time.AfterFunc(caseTimeout(), func() { hung = true; cmd.Process.Kill() })
+	wd := time.AfterFunc(caseTimeout(), func() {
+		hung = true
+		// ask the Go runtime of the worker for its goroutine stacks first: they say where the case is stuck
+		cmd.Process.Signal(syscall.SIGQUIT)
+		time.AfterFunc(3*time.Second, func() { cmd.Process.Kill() })
+	})
 	defer wd.Stop()
 	for sc.Scan() {
 		wd.Reset(caseTimeout())
@@ -433,6 +438,21 @@ func runWorker(bin string, spec workerSpec, a *agg, deadline time.Time, onN func
 		return -1, true, rb.String(), nil
 	}
 	return inflight, false, rb.String(), werr
+}
+
+// stuckFrames condenses a goroutine dump (SIGQUIT output) to the frames of the
+// code under test and of the harness properties, plus the last lines.
+func stuckFrames(dump string) string {
+	var out []string
+	for _, l := range strings.Split(dump, "\n") {
+		if (strings.Contains(l, "gokrazy/rsync") && !strings.Contains(l, "verifharness/core")) && strings.Contains(l, "(") && !strings.HasPrefix(l, "\t") {
+			out = append(out, strings.TrimSpace(l))
+			if len(out) >= 40 {
+				break
+			}
+		}
+	}
+	return strings.Join(out, " | ") + "\n" + lastLines(dump, 6)
 }
 
 // Finding is one line of KNOWN_FINDINGS.txt.
@@ -856,7 +876,7 @@ func runShard(bin string, spec workerSpec, a *agg, deadline time.Time, onN func(
 			to := caseTimeout()
 			hangsSeen.Add(1)
 			a.add(spec.Part, crashedAt, Result{Case: fmt.Sprintf("%s#%d (worker made no progress; use ./run replay to see the case)", spec.Part, crashedAt), Outcome: "hang", Nontrivial: true,
-				Fail: &Failure{Symptom: "hang", Features: map[string]string{"part": spec.Part, "index": strconv.Itoa(crashedAt)}, Detail: fmt.Sprintf("the case made no progress for %v and its worker was killed; reported only if the same case hangs again in isolated re-runs with the full time limit\n%s", to, lastLines(tail, 8))}})
+				Fail: &Failure{Symptom: "hang", Features: map[string]string{"part": spec.Part, "index": strconv.Itoa(crashedAt)}, Detail: fmt.Sprintf("the case made no progress for %v and its worker was killed; reported only if the same case hangs again in isolated re-runs with the full time limit\n%s", to, stuckFrames(tail))}})
 			if spec.Only >= 0 {
 				return
 			}
